@@ -318,3 +318,42 @@ package dawn
 //@ (assert (not (= (pdir q) q)))
 //@ (assert (not (marked (pdir q))))
 //@ >>>
+
+// ---------------------------------------------------------------- C06: module loading
+//   loader - modules this goroutine created in the registry and must load (token created by the
+//            insertion into proj.modules, consumed by module.done)
+//@ ghost loader refset threadlocal = ref_empty()
+//@ ghost n_modload int threadlocal = 0
+
+//@ struct dawn.module
+//@   protected_by m: loading, loaded
+//@   cond cond guards m
+//@   both m: loaded-is-final: old(this.loaded) ==> this.loaded
+
+//@ func (*dawn.module).getLoading
+//@   requires m != nil
+//@   requires not-holding: !holds(m.m)
+//@   ensures  !holds(m.m)
+
+//@ func (*dawn.module).setLoading
+//@   requires m != nil
+//@   requires not-holding: !holds(m.m)
+//@   ensures  !holds(m.m)
+
+// done publishes the result before it sets `loaded` under the lock.
+//@ func (*dawn.module).done
+//@   requires m != nil
+//@   requires not-holding: !holds(m.m)
+//@   ensures  !holds(m.m)
+//@   ensures  published: m.loaded && m.data == data && m.err == err
+//@   ensures  returns-its-arguments: result.0 == data && result.1 == err
+//@   modifies m.data, m.err
+
+// wait returns only when the module is loaded (with its published result), or with a cycle error.
+//@ func (*dawn.module).wait
+//@   requires m != nil
+//@   requires not-holding: !holds(m.m) && (waiter != nil ==> !holds(waiter.m))
+//@   requires no-module-locks: forall x: *dawn.module :: !holds(x.m)
+//@   ensures  !holds(m.m)
+//@   ensures  loaded-or-cycle: m.loaded || result.1 != nil
+//@   modifies heap
